@@ -14,6 +14,9 @@ sys.path.insert(0, sys.argv[1])
 import omega.symbolic.functions as fn      # noqa: E402
 
 
+TABLES = list()
+
+
 def manager(kind):
     if kind == 'cudd':
         import dd.cudd as m
@@ -39,6 +42,23 @@ def check(bdd, kind, rnd, n_bits, n_out, fails, tag):
                           backend=kind, position=tag, error=repr(e)[:200],
                           relation=[{k: int(v) for k, v in p.items()} for p in rel][:16]))
         return
+    # collect_functions(functions): a NEW table with exactly these outputs and their
+    # functions; tables returned by earlier calls stay as they were
+    table = fn.collect_functions(d)
+    ok_now = set(table) == set(d) and all(table[k] is d[k]['function'] or table[k] == d[k]['function'] for k in d)
+    for (old_table, old_keys, old_ids) in TABLES:
+        if old_table is table or set(old_table) != old_keys or [id(old_table[k]) for k in sorted(old_keys)] != old_ids:
+            fails.append(dict(name='collect_functions returns a table of its own: tables collected earlier are not changed by later calls',
+                              backend=kind, position=tag))
+            break
+    TABLES.append((table, set(table), [id(table[k]) for k in sorted(table)]))
+    if not ok_now:
+        fails.append(dict(name='collect_functions(functions) maps exactly the extracted outputs to their functions',
+                          backend=kind, position=tag, got=sorted(table), want=sorted(d)))
+    extra = dict(zz=None)
+    r2 = fn.collect_functions(d, extra)
+    if r2 is not extra or set(r2) != set(d) | {'zz'}:
+        fails.append(dict(name='collect_functions(functions, r) adds to the given table and returns it', backend=kind, position=tag))
     relset = {tuple(p[b] for b in bits) for p in rel}
     for iv in itertools.product([False, True], repeat=len(ins)):
         env = dict(zip(ins, iv))
